@@ -204,7 +204,7 @@ def d_sub_guard(P, f, s):
     return None
 
 
-RULES = [d_usize, d_arity, d_len, d_constre, d_lock, d_sub_guard]
+RULES = []
 
 
 # ------------------------------------------------------------------ inventory
@@ -242,3 +242,458 @@ def source_line(ctx, span):
         return ctx.src_lines(span["file"])[span["line"] - 1].strip()
     except Exception:
         return ""
+
+
+# ------------------------------------------------------------------ D-FRAME (frame stack never empty)
+FRAME_VEC_TY = "Vec<env::StackFrame>"
+_FRAME_OK_CALLEES = ("::deref", "::deref_mut", "::index", "::index_mut", "::is_empty", "::len", "::push",
+                     "::clone", "::iter", "::iter_mut", "::last", "::last_mut", "::first", "::get", "::as_slice")
+
+
+def frame_invariant(P):
+    """FRAME-NONEMPTY: who-may-shrink rule over every call in the crate that receives the frame vector
+    (`Vec<StackFrame>`): only `pop` under the false edge of `len == 1` and `truncate(k>=1)` may shrink it.
+    Returns (ok, [problem strings], n_instances)."""
+    if hasattr(P, "_frame_inv"):
+        return P._frame_inv
+    problems = []
+    n = 0
+    for f in P.funcs.values():
+        for bi, t in f.calls():
+            tys = t.get("argtys") or []
+            if not any(FRAME_VEC_TY in x for x in tys):
+                continue
+            name = PN.norm_path(M.callee_name(t) or "?")
+            recv = tys[0] if tys else ""
+            if FRAME_VEC_TY not in recv:
+                # the vector is passed as a non-receiver argument (mem::swap/take/replace, extend ...)
+                problems.append("%s: frame vector passed to `%s` (%s)" % (f.path, name, f.loc(t.get("fn_span"))))
+                continue
+            n += 1
+            if name.endswith("Vec::<T, A>::pop"):
+                ok = False
+                for sw in D.bool_switches(f):
+                    r = sw["root"]
+                    if r[0] != "rv" or r[3]["rv"]["k"] != "binop" or r[3]["rv"]["op"] != "Eq":
+                        continue
+                    rv = r[3]["rv"]
+                    c = D.const_int(f, rv["b"])
+                    la = f.root_of(rv["a"], through_named=True)
+                    if c != 1 or la[0] != "call" or not (M.callee_name(la[2]) or "").endswith("::len"):
+                        continue
+                    if FRAME_VEC_TY not in ((la[2].get("argtys") or [""])[0]):
+                        continue
+                    if sw["false"] is not None and bi in D.edge_dominated(f, sw["bb"], sw["false"]):
+                        ok = True
+                        break
+                if not ok:
+                    problems.append("%s: frame vector `pop()` not under the false edge of `len() == 1` (%s)" % (f.path, f.loc(t.get("fn_span"))))
+            elif name.endswith("Vec::<T, A>::truncate"):
+                k = D.const_int(f, t["args"][1]) if len(t["args"]) > 1 else None
+                if k is None or k < 1:
+                    problems.append("%s: frame vector truncate(%s) may empty it (%s)" % (f.path, k, f.loc(t.get("fn_span"))))
+            elif not name.endswith(_FRAME_OK_CALLEES):
+                problems.append("%s: frame vector handed to `%s`, which may shrink it (%s)" % (f.path, name, f.loc(t.get("fn_span"))))
+    P._frame_inv = (not problems, problems, n)
+    return P._frame_inv
+
+
+def _def_call(f, op):
+    """the call that produced (the referent of) an operand: sees through `&*` re-borrows."""
+    r = f.root_of(op, through_named=True, through_deref_calls=False)
+    if r[0] == "call":
+        return r[2]
+    if r[0] == "place" and all(e == "deref" for e in r[1]["p"]):
+        d = f.single_def(r[1]["l"])
+        if d is not None and d[1] == "term":
+            return d[2]
+    return None
+
+
+def _is_frame_vec_access(f, op):
+    """operand is last()/last_mut()/first() of (a deref of) the frame vector."""
+    c = _def_call(f, op)
+    if c is None or not (M.callee_name(c) or "").endswith(("::last", "::last_mut", "::first", "::first_mut")):
+        return False
+    a = _def_call(f, c["args"][0])
+    for _ in range(3):
+        if a is not None and (M.callee_name(a) or "").endswith(("::deref", "::deref_mut")):
+            if FRAME_VEC_TY in ((a.get("argtys") or [""])[0]):
+                return True
+            a = _def_call(f, a["args"][0])
+        else:
+            break
+    return False
+
+
+def d_frame(P, f, s):
+    if s.kind not in ("call:Option::unwrap", "call:Option::expect"):
+        return None
+    if not _is_frame_vec_access(f, s.term["args"][0]):
+        return None
+    ok, problems, n = frame_invariant(P)
+    if ok:
+        return "D-FRAME: the frame vector is never empty (FRAME-NONEMPTY: %d receivers checked; only pop under len()!=1 and truncate(1) shrink it)" % n
+    return None
+
+
+# ------------------------------------------------------------------ D-VALSTACK
+def d_valstack(P, f, s):
+    if s.kind not in ("call:Option::unwrap", "call:Option::expect"):
+        return None
+    r = f.root_of(s.term["args"][0], through_named=True)
+    if r[0] == "call" and (M.callee_name(r[2]) or "") == "env::Env::pop_value":
+        return ("D-VALSTACK: pop of the value stack in an evaluated-subexpressions handler; relies on the value-stack "
+                "discipline (each scheduled sub-expression pushes exactly one value) -- reviewed class, see VALSTACK-COUNT")
+    return None
+
+
+# ------------------------------------------------------------------ D-PEEK
+_PEEK_OK = ("TokenStream::<'a>::peek", "parser::peeked_symbol_is", "TokenStream::<'a>::prev", "TokenStream::<'a>::is_empty",
+            "TokenStream::<'a>::peek_two")
+
+
+def _tokens_local(f, op):
+    r = f.root_of(op, through_named=True)
+    if r[0] == "place":
+        return r[1]["l"]
+    return None
+
+
+def d_peek(P, f, s):
+    """`tokens.pop().unwrap()` dominated by a successful peek on the same stream with nothing consumed between."""
+    if s.kind not in ("call:Option::unwrap", "call:Option::expect"):
+        return None
+    r = f.root_of(s.term["args"][0], through_named=True)
+    if r[0] != "call" or not (M.callee_name(r[2]) or "").endswith("TokenStream::<'a>::pop"):
+        return None
+    pop_bb = r[1]
+    tl = _tokens_local(f, r[2]["args"][0])
+    if tl is None:
+        return None
+    cands = []
+    # (a) if peeked_symbol_is(tokens, ..) { .. }
+    for sw in D.bool_switches(f):
+        rr = sw["root"]
+        if rr[0] == "call" and (M.callee_name(rr[2]) or "").endswith("parser::peeked_symbol_is") and \
+                _tokens_local(f, rr[2]["args"][0]) == tl and sw["true"] is not None:
+            cands.append((sw["bb"], sw["true"], "peeked_symbol_is"))
+    # (b) if let Some(token) = tokens.peek() { .. }
+    for sw in D.enum_switches(f):
+        pl = sw["place"]
+        d = f.single_def(pl["l"]) if not pl["p"] else None
+        if d is None or d[1] != "term":
+            continue
+        if not (M.callee_name(d[2]) or "").endswith("TokenStream::<'a>::peek"):
+            continue
+        if _tokens_local(f, d[2]["args"][0]) != tl:
+            continue
+        for tgt, names in sw["by_target"].items():
+            if names == ["Some"]:
+                cands.append((sw["bb"], tgt, "peek() == Some"))
+        if sw["otherwise_variants"] == ["Some"] and sw["otherwise"] not in sw["by_target"]:
+            cands.append((sw["bb"], sw["otherwise"], "peek() == Some"))
+    for (sb, tgt, how) in cands:
+        region = D.edge_dominated(f, sb, tgt)
+        if pop_bb not in region:
+            continue
+        # blocks on paths edge-target -> pop block
+        fwd = D.reach_from(f, [tgt])
+        between = {b for b in fwd if b in region and pop_bb in D.reach_from(f, [b])} - {pop_bb}
+        clean = True
+        for b in between:
+            t = f.blocks[b]["term"]
+            if t["t"] != "call":
+                continue
+            n = M.callee_name(t) or ""
+            if any(_tokens_local(f, a) == tl for a in t["args"]) and not n.endswith(_PEEK_OK):
+                clean = False
+                break
+        if clean:
+            return "D-PEEK: pop() under a successful %s on the same token stream with nothing consumed in between" % how
+    return None
+
+
+# ------------------------------------------------------------------ D-DISPATCH
+def _callers_of(P, path):
+    if not hasattr(P, "_rev_calls"):
+        rev = {}
+        for g in P.funcs.values():
+            for bi, t in g.calls():
+                n = M.callee_name(t)
+                if n in P.funcs:
+                    rev.setdefault(n, []).append((g, bi))
+        P._rev_calls = rev
+    return P._rev_calls.get(path, [])
+
+
+def d_dispatch(P, f, s):
+    """unreachable!() in the fall-through arm of a helper's match on an enum, when every caller only
+    calls the helper from arms of a match on the same enum whose variants all have explicit arms here."""
+    if s.kind not in ("call:panic", "call:panic_fmt") or "entered unreachable code" not in s.detail:
+        return None
+    ctx = D.arm_context(f, s.bb)
+    if not ctx:
+        return None
+    ety, W = ctx[-1]
+    callers = _callers_of(P, f.path)
+    if not callers:
+        return None
+    seenV = set()
+    for g, bi in callers:
+        cc = [c for c in D.arm_context(g, bi) if c[0].replace("&", "").strip() == ety.replace("&", "").strip()]
+        if not cc:
+            return None
+        V = set(cc[-1][1])
+        if V & set(W):
+            return None
+        seenV |= V
+    return "D-DISPATCH: callers reach this helper only for %s variants {%s}, all of which have explicit arms here" % (
+        D.short_ty(ety), ", ".join(sorted(seenV)))
+
+
+# ------------------------------------------------------------------ D-BORROW
+def _cell_ty(t):
+    a = (t.get("argtys") or [""])[0]
+    m = re.search(r"RefCell<(.*)>$", a)
+    return m.group(1) if m else a
+
+
+def borrow_sites(f):
+    """[(bb, term, cell type, mode, guard local or None)] for RefCell borrow-like calls in f."""
+    if hasattr(f, "_borrow_sites"):
+        return f._borrow_sites
+    out = []
+    for bi, t in f.calls():
+        k = PN.panic_api_kind(M.callee_name(t) or "")
+        if k not in ("RefCell::borrow", "RefCell::borrow_mut"):
+            continue
+        mode = "mut" if k.endswith("mut") else "shared"
+        n = M.callee_name(t) or ""
+        guard = t["dest"]["l"] if (not t["dest"]["p"] and n.endswith(("::borrow", "::borrow_mut"))) else None
+        out.append((bi, t, _cell_ty(t), mode, guard))
+    f._borrow_sites = out
+    return out
+
+
+def guard_region(f, call_bb, g):
+    """blocks whose *terminator* executes while guard local g (or a local it was moved into) is alive."""
+    t = f.blocks[call_bb]["term"]
+    if t["target"] is None:
+        return set()
+    alias = {g}
+    changed = True
+    while changed:
+        changed = False
+        for b in f.blocks:
+            for st in b["stmts"]:
+                if st["s"] == "assign" and st["rv"]["k"] == "use":
+                    q = M.op_place(st["rv"]["a"])
+                    if q is not None and not q["p"] and q["l"] in alias and not st["place"]["p"] and st["place"]["l"] not in alias:
+                        alias.add(st["place"]["l"]); changed = True
+    region = set()
+    dq = [t["target"]]
+    seen = set(dq)
+    while dq:
+        b = dq.pop()
+        blk = f.blocks[b]
+        if blk["cleanup"]:
+            continue
+        ended = any(st["s"] == "dead" and st.get("l", st.get("local")) in alias for st in blk["stmts"])
+        tt = blk["term"]
+        if not ended:
+            region.add(b)
+        if ended:
+            continue
+        if tt["t"] == "drop" and not tt["place"]["p"] and tt["place"]["l"] in alias:
+            continue
+        for nx in f.succ[b]:
+            if nx not in seen:
+                seen.add(nx); dq.append(nx)
+    return region
+
+
+def borrow_summary(P):
+    """fn path -> set of (cell type, mode) borrowed by the function or anything it may call."""
+    if hasattr(P, "_borrow_summary"):
+        return P._borrow_summary
+    E = P.edges()
+    direct = {}
+    for f in P.funcs.values():
+        direct[f.path] = {(ct, m) for (_, _, ct, m, _) in borrow_sites(f)}
+    summ = {p: set(v) for p, v in direct.items()}
+    changed = True
+    while changed:
+        changed = False
+        for p, es in E.items():
+            cur = summ[p]
+            before = len(cur)
+            for kind, tgt, bi in es:
+                if kind == "live":
+                    continue
+                if tgt in summ:
+                    cur |= summ[tgt]
+            if len(cur) != before:
+                changed = True
+    P._borrow_summary = summ
+    return summ
+
+
+def _conflict(m1, m2):
+    return m1 == "mut" or m2 == "mut"
+
+
+def borrow_overlaps(P, reach):
+    """BORROW-OVERLAP obligations over the reachable functions.
+    Returns (n_guards, [(fn, where, message, key)])  -- candidate double borrows."""
+    summ = borrow_summary(P)
+    E = P.edges()
+    out = []
+    n = 0
+    for p in sorted(reach):
+        f = P.funcs[p]
+        bs = borrow_sites(f)
+        if not bs:
+            continue
+        tgt_by_bb = {}
+        for kind, tgt, bi in E.get(p, []):
+            if kind != "live":
+                tgt_by_bb.setdefault(bi, set()).add(tgt)
+        for (bi, t, ct, mode, g) in bs:
+            if g is None:
+                continue
+            n += 1
+            region = guard_region(f, bi, g)
+            for (bj, t2, ct2, mode2, g2) in bs:
+                if bj == bi or bj not in region:
+                    continue
+                if ct2 == ct and _conflict(mode, mode2):
+                    a1 = PN.describe_operand(f, t["args"][0]); a2 = PN.describe_operand(f, t2["args"][0])
+                    out.append((f, f.loc(t2.get("fn_span")),
+                                "%s of `%s` while a %s guard of `%s` (same cell type %s) is alive" % (
+                                    "borrow_mut" if mode2 == "mut" else "borrow", a2,
+                                    "RefMut" if mode == "mut" else "Ref", a1, D.short_ty(ct)),
+                                "%s # overlap # %s/%s # %s/%s" % (p, a1, mode, a2, mode2)))
+            for b in region:
+                for tgt in tgt_by_bb.get(b, ()):
+                    for (ct2, mode2) in summ.get(tgt, ()):
+                        if ct2 == ct and _conflict(mode, mode2):
+                            a1 = PN.describe_operand(f, t["args"][0])
+                            out.append((f, f.loc(f.blocks[b]["term"].get("fn_span") or f.blocks[b]["term"].get("span")),
+                                        "call into `%s`, which may %s a RefCell<%s>, while a %s guard of `%s` is alive" % (
+                                            tgt, "mutably borrow" if mode2 == "mut" else "borrow", D.short_ty(ct),
+                                            "RefMut" if mode == "mut" else "Ref", a1),
+                                        "%s # held-across-call # %s/%s # %s/%s" % (p, a1, mode, tgt, mode2)))
+    # dedupe
+    seen = set()
+    ded = []
+    for x in out:
+        if x[3] in seen:
+            continue
+        seen.add(x[3]); ded.append(x)
+    return n, ded
+
+
+def d_borrow(P, f, s):
+    if s.kind not in ("call:RefCell::borrow", "call:RefCell::borrow_mut"):
+        return None
+    # intra-procedural part; the interprocedural part is the BORROW-OVERLAP obligation list
+    mode = "mut" if s.kind.endswith("mut") else "shared"
+    ct = _cell_ty(s.term)
+    for (bi, t, ct2, mode2, g) in borrow_sites(f):
+        if g is None or bi == s.bb:
+            continue
+        if ct2 == ct and _conflict(mode, mode2) and s.bb in guard_region(f, bi, g):
+            return None
+    return "D-BORROW: no conflicting guard of RefCell<%s> is alive in this function here (callers are covered by BORROW-OVERLAP)" % D.short_ty(ct)
+
+
+RULES = [d_usize, d_arity, d_len, d_constre, d_lock, d_sub_guard, d_frame, d_valstack, d_peek, d_dispatch, d_borrow]
+
+
+# ------------------------------------------------------------------ the PANIC-INV rule
+def _fn_calls(f):
+    if not hasattr(f, "_callee_names"):
+        f._callee_names = {M.callee_name(t) or "" for _, t in f.calls()}
+    return f._callee_names
+
+
+def requires_ok(f, req):
+    """a residue row names the guards it relies on (callee-name substrings); they must still be called in f."""
+    names = _fn_calls(f)
+    missing = [r for r in req if not any(r in n for n in names)]
+    return missing
+
+
+def run(ctx, res, layers, floor_fns, floor_sites, extra_roots=(), label="PANIC-INV"):
+    """Evaluates PANIC-INV over the union of the given layers' roots. Adds obligations / violations to res.
+    Returns (reach, inventory)."""
+    P = ctx.P
+    LAYERS = json.load(open(os.path.join(VERIF, "tables", "layers.json")))
+    roots = []
+    for l in layers:
+        for r in LAYERS[l]["roots"]:
+            if r not in P.funcs:
+                raise M.MissingAnchor("root function `%s` of layer %s" % (r, l))
+            roots.append(r)
+    roots += list(extra_roots)
+    reach, inv = inventory(P, roots)
+    residue = load_residue()
+    from collections import Counter
+    seen = Counter()
+    by_rule = Counter()
+    used_rows = set()
+    n_res = 0
+    for f, s in inv:
+        k = site_key(P, f, s)
+        if s.discharged:
+            rule = s.discharged.split(":")[0]
+            by_rule[rule] += 1
+            res.ok(label, k, "discharged:" + rule)
+            continue
+        seen[k] += 1
+        row = residue.get(k)
+        if row and seen[k] <= row.get("count", 1):
+            missing = requires_ok(f, row.get("requires", []))
+            if missing:
+                res.bad(label, k + " # guard-missing",
+                        "reviewed site `%s` relies on %s, which this function no longer calls (%s)" % (k, missing, s.loc()),
+                        s.loc(), {"row": row})
+            else:
+                used_rows.add(k)
+                n_res += 1
+                res.ok(label, k, "residue")
+            continue
+        path = P.call_path(reach, f.path)
+        key = k if seen[k] == 1 or not row else "%s # beyond-reviewed-count" % k
+        res.bad(label, key,
+                "panic-capable %s (%s) in `%s` is reachable and neither discharged by a rule nor reviewed: %s" % (
+                    s.kind, s.detail[:60], f.path, source_line(ctx, s.span)[:100]),
+                s.loc(), {"call_path": path[:12] + (["..."] if len(path) > 12 else []), "kind": s.kind, "detail": s.detail})
+    # interprocedural RefCell obligations
+    n_g, ov = borrow_overlaps(P, reach)
+    for (f, where, msg, key) in ov:
+        row = residue.get(key)
+        if row:
+            missing = requires_ok(f, row.get("requires", []))
+            if not missing:
+                res.ok("BORROW-OVERLAP", key, "residue")
+                used_rows.add(key)
+                continue
+        res.bad("BORROW-OVERLAP", key, msg, where)
+    res.ok("BORROW-OVERLAP", "guards examined=%d" % n_g)
+    ok, problems, n_fr = frame_invariant(P)
+    if ok:
+        res.ok("FRAME-NONEMPTY", "receivers of the frame vector examined=%d" % n_fr)
+    else:
+        for pb in problems:
+            res.bad("FRAME-NONEMPTY", "FRAME-NONEMPTY # " + pb.split(" (")[0], pb)
+    res.floor(label, "functions reachable from %s" % "+".join(layers), len(reach), floor_fns)
+    res.floor(label, "panic-capable sites in them", len(inv), floor_sites)
+    res.extra.setdefault("panic_inv", {})["+".join(layers)] = {
+        "roots": roots, "functions_analysed": len(reach), "sites": len(inv),
+        "discharged_by_rule": dict(by_rule), "reviewed_residue_sites": n_res,
+        "undischarged": sum(1 for o in res.obligations if o[0] == label and o[2] == "violated")}
+    for f, s in inv[:0]:
+        pass
+    return reach, inv
